@@ -21,3 +21,10 @@ pub mod drops {
 
 #[cfg(all(kani, feature = "serde"))]
 include!(concat!(env!("VERIF_HOOK_DIR"), "/../kani/serde_model.rs"));
+
+// ---- C10: key derivation and signing entry points (located by name; no #[no_mangle] in this crate)
+pub mod ct {
+    use crate::{Signer, SigningKey};
+    #[inline(never)] pub fn vp_ed_keygen(seed: &[u8; 32]) -> [u8; 32] { let k = SigningKey::from_bytes(seed); let v = k.verifying_key().to_bytes(); core::mem::forget(k); v }
+    #[inline(never)] pub fn vp_ed_sign(seed: &[u8; 32], msg: &[u8]) -> [u8; 64] { let k = SigningKey::from_bytes(seed); let s = k.sign(msg).to_bytes(); core::mem::forget(k); s }
+}
